@@ -51,8 +51,33 @@ pub fn run(op: &str, a: &[&str]) -> Option<String> {
             let back = s.parse::<f64>().map(wr_f64).unwrap_or_else(|_| "unparsable".into());
             Some(format!("\"{}\" {}", s, back))
         }
-        _ => trait_ops(op, a).or_else(|| serde_ops(op, a)),
+        _ => numcast_ops(op, a).or_else(|| trait_ops(op, a)).or_else(|| serde_ops(op, a)),
     }
+}
+
+/// the generic `<TwoFloat as NumCast>::from(n)`, instantiated at every primitive numeric type: `numcast.<type> n`
+/// (integers in decimal, floats as bit patterns)
+fn numcast_ops(op: &str, a: &[&str]) -> Option<String> {
+    use num_traits::NumCast;
+    let s = *a.get(0)?;
+    macro_rules! nc { ($t:ty) => { wr_opttf(<TwoFloat as NumCast>::from(rd_int::<$t>(s)?)) } }
+    Some(match op {
+        "numcast.i8" => nc!(i8),
+        "numcast.i16" => nc!(i16),
+        "numcast.i32" => nc!(i32),
+        "numcast.i64" => nc!(i64),
+        "numcast.i128" => nc!(i128),
+        "numcast.isize" => nc!(isize),
+        "numcast.u8" => nc!(u8),
+        "numcast.u16" => nc!(u16),
+        "numcast.u32" => nc!(u32),
+        "numcast.u64" => nc!(u64),
+        "numcast.u128" => nc!(u128),
+        "numcast.usize" => nc!(usize),
+        "numcast.f64" => wr_opttf(<TwoFloat as NumCast>::from(rd_f64(s))),
+        "numcast.f32" => wr_opttf(<TwoFloat as NumCast>::from(rd_f32(s))),
+        _ => return None,
+    })
 }
 
 /// num_traits entry points called through the trait whether or not the crate overrides the provided method
